@@ -986,8 +986,8 @@ func lowerBoundTreatments(fn *ssa.Function) []string {
 		if !ok {
 			return
 		}
-		// v < 1, v <= 0
-		if !((op == token.LSS && k == 1) || (op == token.LEQ && k == 0)) {
+		// v < 1, v <= 0, and — page numbers come from \d+ groups, so they are never negative — v == 0
+		if !((op == token.LSS && k == 1) || (op == token.LEQ && k == 0) || (op == token.EQL && k == 0)) {
 			return
 		}
 		if _, isLen := x.(*ssa.Call); isLen {
@@ -997,12 +997,27 @@ func lowerBoundTreatments(fn *ssa.Function) []string {
 			b := e.From.Succs[e.Succ]
 			// follow straight-line jumps
 			seen := map[*ssa.BasicBlock]bool{}
+			works := func(x *ssa.BasicBlock) bool {
+				for _, in := range x.Instrs {
+					switch y := in.(type) {
+					case *ssa.Call:
+						if _, isB := y.Call.Value.(*ssa.Builtin); !isB {
+							return true
+						}
+					case *ssa.MapUpdate, *ssa.Store:
+						return true
+					}
+				}
+				return false
+			}
+			did := works(b)
 			for len(b.Succs) == 1 && !seen[b] {
 				seen[b] = true
 				b = b.Succs[0]
+				did = did || works(b)
 			}
 			cls := "continue"
-			if len(b.Instrs) > 0 {
+			if len(b.Instrs) > 0 && !did {
 				if _, isRet := b.Instrs[len(b.Instrs)-1].(*ssa.Return); isRet {
 					cls = "drop"
 				}
@@ -1010,11 +1025,30 @@ func lowerBoundTreatments(fn *ssa.Function) []string {
 			items = append(items, item{bo.Pos(), cls})
 		}
 	})
-	sort.Slice(items, func(i, j int) bool { return items[i].pos < items[j].pos })
-	var out []string
+	// a clamp spelled with the builtin: max(v, 1)
+	eachInstr(fn, func(_ *ssa.BasicBlock, _ int, i ssa.Instruction) {
+		call, ok := i.(*ssa.Call)
+		if !ok {
+			return
+		}
+		if b, ok := call.Call.Value.(*ssa.Builtin); ok && b.Name() == "max" {
+			for _, a := range call.Call.Args {
+				if k, ok := c31ConstInt(a); ok && k == 1 {
+					items = append(items, item{call.Pos(), "continue"})
+				}
+			}
+		}
+	})
+	// the comparison is between the SETS of treatments: how a test is spelled and how many there are is style
+	set := map[string]bool{}
 	for _, it := range items {
-		out = append(out, it.s)
+		set[it.s] = true
 	}
+	var out []string
+	for k := range set {
+		out = append(out, k)
+	}
+	sort.Strings(out)
 	return out
 }
 
